@@ -639,6 +639,8 @@ class Engine:
             return len(v.d) > 0
         if isinstance(v, (ClassRef, FuncRef, BoundMethod, Builtin, ExtRef, Obj, ExcVal, Module)):
             return True
+        if hasattr(v, "sym_truthy"):
+            return v.sym_truthy
         if isinstance(v, ExtVal):
             return self.uf("ext_truthy", self.PV, z3.BoolSort())(self.to_pv(v))
         if isinstance(v, SeqMap):
@@ -752,6 +754,8 @@ class Engine:
 
     # ---- calling ------------------------------------------------------------------------
     def call_value(self, path, fv, args, kwargs, frame=None):
+        if hasattr(fv, "sym_call"):
+            return fv.sym_call(self, path, args, kwargs)
         if isinstance(fv, BoundMethod):
             if isinstance(fv.func, FuncRef):
                 return self.call_function(path, fv.func, [fv.self_val] + list(args), kwargs, self_val=fv.self_val)
